@@ -97,18 +97,8 @@ func lexAll(input string) (toks []tok, closed, capsEqual bool) {
 	return
 }
 
-// the non-Latin-1 code points the Coq instance go_uni classifies (coq/Lexer/Unicode.v: extra_table)
-var extraRunes = map[rune]bool{0x130: true, 0x131: true, 0x17F: true, 0x212A: true, 0x391: true, 0x3B1: true, 0x4E16: true,
-	0x661: true, 0x2160: true, 0x2003: true, 0x2028: true, 0x3000: true, 0xFFFD: true, 0x1F600: true}
-
-func inDomain(s string) bool {
-	for _, r := range s { // invalid bytes decode to RuneError = U+FFFD, which is in the table
-		if r >= 0x100 && !extraRunes[r] {
-			return false
-		}
-	}
-	return true
-}
+// every input is in the model's domain now that the unicode tables are generated from the toolchain (kept as a hook)
+func inDomain(s string) bool { return true }
 
 var (
 	w         *bufio.Writer
@@ -498,6 +488,12 @@ func main() {
 			for k := rng.Intn(9); k > 0; k-- {
 				if rng.Intn(8) == 0 {
 					b.WriteByte(byte(rng.Intn(256)))
+				} else if rng.Intn(6) == 0 { // any code point (surrogates become U+FFFD bytes)
+					cp := rng.Intn(0x110000)
+					if rng.Intn(2) == 0 {
+						cp = rng.Intn(0x3000)
+					}
+					b.WriteString(string(rune(cp)))
 				} else {
 					b.WriteString(interesting[rng.Intn(len(interesting))])
 				}
